@@ -122,12 +122,20 @@ fn next_str<'s>(bytes: &mut &'s [u8], state: &mut State) -> Option<&'s str> {
     });
     let (_, next) = bytes.split_at(offset.unwrap_or(bytes.len()));
     *bytes = next;
-    *state = State::Ground;
+    if *state == State::Utf8 {
+        // `str` is valid UTF-8, the rest of the character is consumed below
+        *state = State::Ground;
+    }
 
-    let offset = bytes.iter().copied().position(|b| {
-        let (_next_state, action) = state_change(State::Ground, b);
-        !(is_printable_bytes(action, b) || is_utf8_continuation(b))
-    });
+    let offset = if *state == State::Ground {
+        bytes.iter().copied().position(|b| {
+            let (_next_state, action) = state_change(State::Ground, b);
+            !(is_printable_bytes(action, b) || is_utf8_continuation(b))
+        })
+    } else {
+        // Either out of data or whitespace was executed in the middle of an escape sequence
+        Some(bytes.len().min(1))
+    };
     let (printable, next) = bytes.split_at(offset.unwrap_or(bytes.len()));
     *bytes = next;
     if printable.is_empty() {
